@@ -142,12 +142,28 @@ pub fn checkpoint_and_compare(rep: &mut Report, p: &Params, a: &mut Inst, histor
 }
 
 fn stream(bars: bool, len: usize, seed: u64) -> Vec<Op> {
+    // a third of the streams are decimal quotes on a grid (0.37-cent ticks, two-decimal scalars) with exact
+    // repeats of the previous value: prices that no narrower number format holds exactly, and ties across the
+    // checkpoint that only survive if every bit of the remembered price does
     if bars {
-        let mut g = BarGen::new(BarStyle::Mixed, 1.0, seed);
+        let mut g = if seed % 3 == 1 { BarGen::new(BarStyle::TickGrid, 1.48, seed) } else { BarGen::new(BarStyle::Mixed, 1.0, seed) };
         (0..len).map(|_| Op::NextBar(g.next())).collect()
     } else {
         let mut r = Rng::new(seed);
-        (0..len).map(|_| Op::NextF(if r.chance(0.2) { r.below(4) as f64 } else { r.uniform(-20.0, 80.0) })).collect()
+        let mut prev = 101.37;
+        (0..len)
+            .map(|_| {
+                let x = if seed % 3 == 1 {
+                    if r.chance(0.3) { prev } else { (r.uniform(90.0, 110.0) * 100.0).round() / 100.0 }
+                } else if r.chance(0.2) {
+                    r.below(4) as f64
+                } else {
+                    r.uniform(-20.0, 80.0)
+                };
+                prev = x;
+                Op::NextF(x)
+            })
+            .collect()
     }
 }
 
@@ -209,7 +225,19 @@ fn run_every_prefix(ctx: &Ctx) -> Report {
             for op in &hist[..cut] {
                 a.apply(op);
             }
-            checkpoint_and_compare(rep, &p, &mut a, &hist[..cut], &cont, "every_prefix", true);
+            // at every other position the continuation opens with an exact repeat of the last input before the
+            // checkpoint (a tie across it: decided correctly only if the remembered value survived bit for bit)
+            let tied;
+            let cont_here: &[Op] = if cut % 2 == 1 && !matches!(hist[cut - 1], Op::Reset) {
+                let mut c2 = cont.clone();
+                c2[0] = hist[cut - 1].clone();
+                tied = c2;
+                rep.count("prefix.continuations_opening_with_a_tie");
+                &tied
+            } else {
+                &cont
+            };
+            checkpoint_and_compare(rep, &p, &mut a, &hist[..cut], cont_here, "every_prefix", true);
             rep.count("prefix.checkpoints");
             let since_reset = hist[..cut].iter().rev().take_while(|o| !matches!(o, Op::Reset)).count();
             rep.count(if cut == 0 {
